@@ -188,10 +188,12 @@ def run(tier, t0):
     for p in runner.parallel("vf.props.c08", "ball_part", [(sh, 1 if tier == "quick" else 12, runner.SEED) for sh in range(runner.NPROC)]):
         part.merge(p)
     part.merge(runner.hyp_shards("vf.props.c08", "hyp_part", 6400 if tier == "quick" else 200000))
+    from ..fuzz import driver
+    fuzz_note = driver.campaign(part, "dialogue", runs=120000 if tier == "quick" else 3000000, only=("builder",))
     rule = ("accepted vectors with every subset of optional metrics (uniform presence, any input order) + deterministic "
             "covering set, each vector emitted from a fresh object or after up to three other accessor calls (no optional metric; every single optional metric with every value; all optional metrics in two "
             "orders; pairs of metrics from different groups) + interactive answer scripts for every version form and both "
             "modes. non-trivial = vector with >= 2 optional groups defined, or an all-metrics builder run; distinct by hash")
     return runner.finish(part, tier, t0, rule,
-                         ["official grammar = vectorString pattern of the pinned FIRST schemas (re.fullmatch)"],
+                         ["official grammar = vectorString pattern of the pinned FIRST schemas (re.fullmatch)", "coverage-guided (builder results): " + fuzz_note],
                          required=("covering", "v2", "v3", "v4", "groups=0", "groups=2", "builder:all", "builder:mandatory", "with-prior-calls", "fresh-object", "mutant", "one-edit-ball-member-tried"))
